@@ -847,20 +847,79 @@ pub fn string_replace_all(
     this: JsValue,
     args: &[JsValue],
 ) -> Result<Guarded, JsError> {
-    let s = interp.to_js_string(&this);
-    let search = match args.first() {
-        Some(v) => interp.to_js_string(v),
-        None => interp.intern(""),
-    };
-    let replacement = match args.get(1) {
-        Some(v) => interp.to_js_string(v),
-        None => interp.intern(""),
+    use crate::value::ExoticObject;
+
+    let search_arg = args.first().cloned().unwrap_or(JsValue::Undefined);
+    let replacement_arg = args.get(1).cloned().unwrap_or(JsValue::Undefined);
+
+    // A regular expression must be global, and then replaceAll is replace
+    if let JsValue::Object(ref obj) = search_arg {
+        let global = match obj.borrow().exotic {
+            ExoticObject::RegExp { ref flags, .. } => Some(flags.contains('g')),
+            _ => None,
+        };
+        match global {
+            Some(true) => return string_replace(interp, this, args),
+            Some(false) => {
+                return Err(JsError::type_error(
+                    "replaceAll must be called with a global RegExp",
+                ));
+            }
+            None => {}
+        }
+    }
+
+    let s = interp.to_js_string(&this).to_string();
+    let search = interp.coerce_to_string(&search_arg)?.to_string();
+    let is_replacement_function = replacement_arg.is_callable();
+    let replacement_template = if is_replacement_function {
+        String::new()
+    } else {
+        interp.coerce_to_string(&replacement_arg)?.to_string()
     };
 
-    // Replace all occurrences
-    Ok(Guarded::unguarded(JsValue::String(JsString::from(
-        s.as_str().replace(search.as_str(), replacement.as_str()),
-    ))))
+    // Every non-overlapping occurrence, left to right (an empty search string matches before
+    // every character and at the end)
+    let mut positions: Vec<usize> = Vec::new();
+    if search.is_empty() {
+        positions.extend(s.char_indices().map(|(i, _)| i));
+        positions.push(s.len());
+    } else {
+        let mut from = 0;
+        while let Some(found) = s.get(from..).and_then(|rest| rest.find(&search)) {
+            positions.push(from + found);
+            from += found + search.len();
+        }
+    }
+
+    let mut result = String::new();
+    let mut last_end = 0;
+    for start in positions {
+        let end = start + search.len();
+        result.push_str(s.get(last_end..start).unwrap_or(""));
+        if is_replacement_function {
+            let position = s.get(..start).map(|p| p.chars().count()).unwrap_or(0);
+            let call_args = [
+                JsValue::String(JsString::from(search.clone())),
+                JsValue::Number(position as f64),
+                JsValue::String(JsString::from(s.clone())),
+            ];
+            let replaced =
+                interp.call_function(replacement_arg.clone(), JsValue::Undefined, &call_args)?;
+            result.push_str(interp.coerce_to_string(&replaced.value)?.as_str());
+        } else {
+            result.push_str(&expand_replacement_pattern(
+                &replacement_template,
+                &search,
+                s.get(..start).unwrap_or(""),
+                s.get(end..).unwrap_or(""),
+                None, // No capture groups for string search
+            ));
+        }
+        last_end = end;
+    }
+    result.push_str(s.get(last_end..).unwrap_or(""));
+    Ok(Guarded::unguarded(JsValue::String(JsString::from(result))))
 }
 
 pub fn string_pad_start(
@@ -1258,8 +1317,9 @@ pub fn string_match_all(
         all_matches.push(JsValue::Object(arr));
     }
 
+    // An iterator (with next()) over the match arrays
     let result_arr = interp.create_array_from(&guard, all_matches);
-    Ok(Guarded::with_guard(JsValue::Object(result_arr), guard))
+    super::array::array_values(interp, JsValue::Object(result_arr), &[])
 }
 
 /// String.prototype.search(regexp)
